@@ -240,7 +240,7 @@ def run_property(plugin, tier, seed, replay=None, no_build=False):
         "runs": [{"tag": r["tag"], "cases": len(r["cases"]), "mismatches": len(r["mismatch"]),
                   "monitor_violations": len(r["viol"])} for r in results],
         "known_findings_seen": known_lines,
-        "exhaustive": False,
+        "exhaustive": bool(getattr(plugin, "EXHAUSTIVE", False)),
     }
     if tier == "thorough" and ok and getattr(plugin, "COQCHK", True):
         mods = ["SSV." + t[:-3].replace("/", ".") for t in plugin.COQ_TARGETS]
